@@ -48,10 +48,23 @@ def rhs_matrix(ode, max_tries: int | None = None) -> sympy.Matrix:
             return sympy.Integer(1) if expr else sympy.Integer(0)
         return expr
 
-    intermediates = {x.symbol: number(x.expr) for x in ode.intermediates}
+    def truth_values_explicit(expr):
+        # A quantity that stands as a truth value (And(g, h), Not(flag)) is true when it is
+        # not zero. Written out, the quantity can be replaced by the number it stands for
+        def explicit(arg):
+            return sympy.Ne(arg, 0) if isinstance(arg, sympy.Symbol) else arg
+
+        return expr.replace(
+            lambda e: isinstance(e, sympy.logic.boolalg.BooleanFunction),
+            lambda e: e.func(*[explicit(arg) for arg in e.args]),
+        )
+
+    intermediates = {x.symbol: truth_values_explicit(number(x.expr)) for x in ode.intermediates}
     # An intermediate may read the derivative of a state (rate = 2 * dx_dt), so the
     # state derivatives are definitions to expand as well
-    intermediates.update({x.symbol: x.expr for x in ode.state_derivatives})
+    intermediates.update(
+        {x.symbol: truth_values_explicit(number(x.expr)) for x in ode.state_derivatives}
+    )
     # Expand the intermediates themselves first, dependencies before dependents, so that
     # a single substitution into the right hand side suffices. Substituting repeatedly into
     # the half-expanded matrix grows with the dependency depth and can exhaust the
@@ -63,7 +76,9 @@ def rhs_matrix(ode, max_tries: int | None = None) -> sympy.Matrix:
     intermediates = expanded
     if max_tries is None:
         max_tries = len(intermediates) + 1
-    rhs = sympy.Matrix([state.expr for state in ode.sorted_state_derivatives()])
+    rhs = sympy.Matrix(
+        [truth_values_explicit(number(state.expr)) for state in ode.sorted_state_derivatives()]
+    )
 
     num_tries = 0
     while (any([rhs.has(k) for k in intermediates.keys()])) and num_tries < max_tries:
